@@ -38,8 +38,8 @@ impl Engine for WasmEngine {
                 p.rule = "case = generated valid module (stack-directed generator, 3 size classes) run on every export with 3 argument vectors under plain/metered-V0/metered-V1 artifacts; evaluations = engine executions compared with the reference interpreter; distinct_nontrivial = distinct modules (hash of bytes) with an execution of >= 30 reference steps and >= 1 taken branch".into();
                 p.floors = vec![("executions.nontrivial".into(), 100), ("ref.trap".into(), 10), ("ref.success".into(), 100), ("ref.br_if.untaken.arity1".into(), 5), ("ref.br_if.taken.arity1".into(), 5), ("ref.br_table.arity1".into(), 1), ("ref.loop.backedge".into(), 20)];
                 p.san = vec![
-                    SanTier { name: "asan", shards: 16, cases: if quick { 40 } else { 3000 }, timeout_s: if quick { 1200 } else { 2 * 3600 }, budget_s: if quick { 60 } else { 1500 } },
-                    SanTier { name: "miri", shards: 16, cases: if quick { 40 } else { 2000 }, timeout_s: if quick { 1200 } else { 2 * 3600 }, budget_s: if quick { 45 } else { 1200 } },
+                    SanTier { name: "asan", shards: 16, cases: if quick { 40 } else { 3000 }, timeout_s: if quick { 1200 } else { 2 * 3600 }, budget_s: if quick { 60 } else { 600 } },
+                    SanTier { name: "miri", shards: 16, cases: if quick { 40 } else { 2000 }, timeout_s: if quick { 1200 } else { 2 * 3600 }, budget_s: if quick { 45 } else { 600 } },
                 ];
             }
             "C02" => {
@@ -59,8 +59,8 @@ impl Engine for WasmEngine {
                 p.rule = "case = byte string: generated valid module, boundary module on/over a documented limit, or a generated module mutated at instruction, LEB128, section or byte level, or random bytes; evaluations = byte strings classified by both the engine (parse_skeleton+validate_module+compile) and the independent reference validator; distinct_nontrivial = distinct mutated byte strings whose classification got past the section framing (reference stage >= 2)".into();
                 p.floors = vec![("agree.valid".into(), 2000), ("agree.invalid".into(), 5000), ("expected.valid".into(), 500), ("expected.invalid".into(), 300), ("exec.accepted_module".into(), 2000), ("cases.nontrivial".into(), 5000), ("allowlist.expect_accept".into(), 200), ("allowlist.expect_reject".into(), 500)];
                 p.san = vec![
-                    SanTier { name: "asan", shards: 16, cases: if quick { 3000 } else { 100_000 }, timeout_s: if quick { 1200 } else { 2 * 3600 }, budget_s: if quick { 40 } else { 1500 } },
-                    SanTier { name: "miri", shards: 16, cases: if quick { 60 } else { 3000 }, timeout_s: if quick { 1200 } else { 2 * 3600 }, budget_s: if quick { 45 } else { 1200 } },
+                    SanTier { name: "asan", shards: 16, cases: if quick { 3000 } else { 100_000 }, timeout_s: if quick { 1200 } else { 2 * 3600 }, budget_s: if quick { 40 } else { 600 } },
+                    SanTier { name: "miri", shards: 16, cases: if quick { 60 } else { 3000 }, timeout_s: if quick { 1200 } else { 2 * 3600 }, budget_s: if quick { 45 } else { 600 } },
                 ];
             }
             "C13" => {
@@ -71,8 +71,8 @@ impl Engine for WasmEngine {
                 p.rule = "case = generated valid module (imports forced on in 3/4) x {plain, metered-V0, metered-V1} artifact; evaluations = executions compared with the uninterrupted run of the freshly compiled artifact (zero-copy form parsed at an odd address, reloaded owned form, interrupt masks: all, each of the first 5 call sites, 3 random) plus one per serialisation round-trip; distinct_nontrivial = distinct modules with an execution making >= 2 host calls".into();
                 p.floors = vec![("artifact.roundtrips".into(), 500), ("forms.borrowed_agrees".into(), 1000), ("interrupts.agree".into(), 1000), ("interrupts.total".into(), 2000), ("interrupts.nested_depth_ge_2".into(), 50), ("interrupts.runs_with_two_or_more".into(), 100)];
                 p.san = vec![
-                    SanTier { name: "asan", shards: 16, cases: if quick { 20 } else { 1500 }, timeout_s: if quick { 1200 } else { 2 * 3600 }, budget_s: if quick { 45 } else { 1500 } },
-                    SanTier { name: "miri", shards: 16, cases: if quick { 40 } else { 2000 }, timeout_s: if quick { 1200 } else { 2 * 3600 }, budget_s: if quick { 45 } else { 1200 } },
+                    SanTier { name: "asan", shards: 16, cases: if quick { 20 } else { 1500 }, timeout_s: if quick { 1200 } else { 2 * 3600 }, budget_s: if quick { 45 } else { 600 } },
+                    SanTier { name: "miri", shards: 16, cases: if quick { 40 } else { 2000 }, timeout_s: if quick { 1200 } else { 2 * 3600 }, budget_s: if quick { 45 } else { 600 } },
                 ];
             }
             _ => {}
